@@ -1,8 +1,8 @@
 (* C09 -- FASTA index returns exactly the indexed (sub)sequences. Only statements here; proofs in proof/C09_*.v. *)
-From Coq Require Import List Arith ZArith NArith Bool.
+From Coq Require Import List Arith ZArith NArith Bool Sorted Permutation.
 From Coq.Strings Require Import Byte.
 Import ListNotations.
-From SV Require Import Text C09_Model C09_Lemmas C09_Extract C09_Record C09_Box C09_Unterm C09_Scan C09_Parse C09_Get C09_GetAll C09_Header C09_Read.
+From SV Require Import Text C09_Model C09_Lemmas C09_Extract C09_Record C09_Box C09_Unterm C09_Scan C09_Parse C09_Get C09_GetAll C09_Header C09_Read C09_Store C09_Sort.
 
 (* P0 (DESIGN appendix A): for every line width, newline sequence and residue string, stripping the newline bytes from the bytes
    [off i, off j) of the wrapped text, off x = x + (x / w) * |nl| (fastaindex.py:118,132), gives s[i:j] *)
@@ -293,3 +293,61 @@ Example C09_witness :
                               VL [VS (bs "a"%bs); VS (bs "a d"%bs); VS (bs "CGT"%bs)];
                               VL [VS (bs "a"%bs); VS (bs "a d"%bs); VS []]]]]).
 Proof. exact witness_run. Qed.
+
+(* ===================================================================== round 7: the index FILE as state (model/C09_Store.v) *)
+
+(* the order of the binary search file records (Python tuple comparison: id bytes, then file number, line length, offset) is a
+   total order: reflexive, antisymmetric, transitive, total *)
+Theorem C09_record_order : (forall a, entry_le a a) /\ (forall a b, entry_le a b -> entry_le b a -> a = b)
+  /\ (forall a b c, entry_le a b -> entry_le b c -> entry_le a c) /\ (forall a b, entry_le a b \/ entry_le b a).
+Proof. exact (conj entry_le_refl (conj entry_le_antisym (conj entry_le_trans (fun a b => match entry_leb a b as x return entry_leb a b = x -> _ with true => fun E => or_introl E | false => fun E => or_intror (entry_le_total a b E) end eq_refl)))). Qed.
+Print Assumptions C09_record_order.
+
+(* sorted(data) in BinarySearchFile.write: the result is sorted and a permutation of the records written, and it is THE sorted
+   permutation -- any list that is sorted and a permutation of the data equals it (so the model's insertion sort stands for
+   whatever algorithm sorted() uses) *)
+Theorem C09_sorted_records : forall data : list entry,
+  StronglySorted entry_le (sort_e data) /\ Permutation (sort_e data) data
+  /\ forall recs, StronglySorted entry_le recs -> Permutation recs data -> recs = sort_e data.
+Proof. exact (fun data => conj (sort_sorted data) (conj (sort_perm data) (sorted_records data))). Qed.
+Print Assumptions C09_sorted_records.
+
+(* _binarysearch(f, x, hi): for EVERY key function that is sorted (non-strictly) on 0..n-1 and every x it terminates with the
+   lower bound: the k <= n such that exactly the keys before k are smaller than x.  Unbounded in n. *)
+Theorem C09_bsearch_lower_bound : forall (key : nat -> str) (n : nat) (x : str),
+  (forall i j, i <= j -> j < n -> str_le (key i) (key j)) ->
+  exists k, bsearch key x n = Some k /\ k <= n
+            /\ (forall i, i < k -> str_cmp (key i) x = Lt) /\ (forall i, k <= i -> i < n -> str_cmp (key i) x <> Lt).
+Proof. exact bsearch_lower_bound_gen. Qed.
+Print Assumptions C09_bsearch_lower_bound.
+
+(* BinarySearchFile.search/get (FastaIndex._search in binary mode): on every sorted record list, of any length, the lookup of a
+   non-empty id returns the FIRST record of the file with that id if there is one and raises ValueError otherwise *)
+Theorem C09_bsf_get_first : forall recs id, StronglySorted entry_le recs -> id <> [] ->
+  bsf_get recs id = match find (fun e => str_eqb (e_id e) id) recs with
+                    | Some e => Ok e
+                    | None => Err (bs "ValueError"%bs)
+                    end.
+Proof. exact bsf_get_first. Qed.
+Print Assumptions C09_bsf_get_first.
+
+(* found iff present; not found (ValueError) iff absent *)
+Theorem C09_bsf_get_iff : forall recs id, StronglySorted entry_le recs -> id <> [] ->
+  ((exists e, In e recs /\ e_id e = id) <-> exists e, bsf_get recs id = Ok e)
+  /\ ((forall e, In e recs -> e_id e <> id) <-> bsf_get recs id = Err (bs "ValueError"%bs)).
+Proof. exact bsf_get_iff. Qed.
+Print Assumptions C09_bsf_get_iff.
+
+(* several records with the same id (a file added again): the least one in the tuple order is returned *)
+Theorem C09_bsf_get_min : forall recs id e, StronglySorted entry_le recs -> id <> [] -> bsf_get recs id = Ok e ->
+  In e recs /\ e_id e = id /\ forall e', In e' recs -> e_id e' = id -> entry_le e e'.
+Proof. exact bsf_get_min. Qed.
+Print Assumptions C09_bsf_get_min.
+
+(* non-vacuity: ids that are prefixes of each other, upper case before lower case, a duplicate id *)
+Example C09_store_witness :
+  let data := [Entry (bs "b"%bs) 0 0 9; Entry (bs "ab"%bs) 1 4 0; Entry (bs "a"%bs) 0 4 20; Entry (bs "B"%bs) 2 0 0; Entry (bs "ab"%bs) 0 7 3] in
+  sort_e data = [Entry (bs "B"%bs) 2 0 0; Entry (bs "a"%bs) 0 4 20; Entry (bs "ab"%bs) 0 7 3; Entry (bs "ab"%bs) 1 4 0; Entry (bs "b"%bs) 0 0 9]
+  /\ bsf_get (sort_e data) (bs "ab"%bs) = Ok (Entry (bs "ab"%bs) 0 7 3)
+  /\ bsf_get (sort_e data) (bs "aa"%bs) = Err (bs "ValueError"%bs).
+Proof. exact (conj eq_refl (conj eq_refl eq_refl)). Qed.
